@@ -336,7 +336,9 @@ def check_state(r, cs, bp):
         try:
             _write(r, "a.h5")
         except (TypeError, ValueError) as e:
-            raise Unwritable(type(e).__name__)
+            ex = Unwritable(type(e).__name__)
+            ex.detail = str(e)[:160]
+            raise ex
         try:
             x = _load("a.h5", cyc, node, cs, bp)
             y = _load("a.h5", cyc, node, cs, bp)
@@ -390,11 +392,11 @@ def _raised_file():
     return os.path.join(env.run_root(), "c04_mutation_raised.jsonl")
 
 
-def _note_raised(init, hist, exc):
+def _note_raised(init, hist, exc, kind="mutation_raised"):
     import json
 
     with open(_raised_file(), "a") as f:
-        f.write(json.dumps({"family": init["family"], "history": hist, "exception": "%s: %s" % (type(exc).__name__, str(exc)[:160])}) + "\n")
+        f.write(json.dumps({"kind": kind, "family": init["family"], "history": hist, "exception": "%s: %s" % (exc if kind == "unwritable" else type(exc).__name__, getattr(exc, "detail", str(exc)[:160]))}) + "\n")
 
 
 def expand(item):
@@ -422,6 +424,7 @@ def expand(item):
         found, canon, loaded, st = check_state(r, cs, bp)
     except Unwritable as e:
         # not a C04 question: nothing was saved. The state is counted and not extended.
+        _note_raised(init, item["hist"], e, kind="unwritable")
         return {"canon": "unwritable:%s:%s" % (e, item["hist"]), "full": None, "viols": [], "ops": [], "out": "unwritable:%s" % e, "terminal": True, "suppressed": {}, "nodes": 0}
     base = set(init.get("base_keys", ()))
     case = {"init": {k: v for k, v in init.items() if k not in ("base_keys", "levels")}, "hist": item["hist"], "outs": list(item["outs"][: max(0, len(item["hist"]) - 1)]) + ([out] if item["hist"] else [])}
@@ -553,8 +556,12 @@ def run(ctx):
 
         with open(_raised_file()) as f:
             raised = [json.loads(l) for l in f if l.strip()]
+    unwritable = [x for x in raised if x.get("kind") == "unwritable"]
+    raised = [x for x in raised if x.get("kind") != "unwritable"]
     ctx.count("mutation_raised", len(raised))
+    ctx.count("unwritable", len(unwritable))
     ctx.coverage["mutation_raised"] = raised[:40]
+    ctx.coverage["unwritable"] = unwritable[:40]
     if raised:
         ctx.notes.append("%d histories end in a mutation operation that itself raises (listed under mutation_raised; not judged, not extended). Whether e.g. Assembly.moveTo should cope with list/dict-valued volume-integrated block parameters is outside C04's statement." % len(raised))
     explore.finish(ctx, total, extra={"levels": LEVELS[tier], "families": list(ops.FAMILIES), "alphabet_size": {f: {n: len(ops.alphabet({"family": f, "levels": [n]})) for n in ("FULL", "SUB2", "SUB3")} for f in ops.FAMILIES}})
